@@ -426,6 +426,69 @@ func c20units(tier string) []mc.Unit {
 			r.AddExplore(st, "k=200")
 		}})
 	}
+	// the file wrapper with the channels it allocates itself, driven by the documented consumer
+	// (entries to closure, then errors) on intact and damaged gzip files, every interleaving
+	us = append(us, mc.Unit{Name: "read-file/schedules", Serial: true, Weight: 60, Run: func(r *mc.Recorder) {
+		dir, err := os.MkdirTemp("", "c20r")
+		if err != nil {
+			panic(err)
+		}
+		defer os.RemoveAll(dir)
+		es := c20entries(2)
+		doc := c20doc(es)
+		inside := bytes.Index(doc, []byte("</name>")) + 3 // inside the first entry
+		second := bytes.LastIndex(doc, []byte("<sequence")) + 20
+		between := bytes.Index(doc, []byte("</entry>\n")) + 9
+		mism := bytes.Replace(doc, []byte("</accession>"), []byte("</acession>"), 1)
+		files := []struct {
+			name string
+			data []byte
+		}{{"intact", doc}, {"cut inside the first entry", doc[:inside]}, {"cut inside the second entry", doc[:second]}, {"cut between the entries", doc[:between]}, {"mismatched end tag in the first entry", mism}}
+		for fi, f := range files {
+			path := filepath.Join(dir, fmt.Sprintf("f%d.xml.gz", fi))
+			os.WriteFile(path, c20gz(f.data), 0o644)
+			complete, wf := c20scan(bytes.NewReader(f.data))
+			st := mc.Explore(mc.Options{DevBound: 0, PreemptBound: -1, Prune: true, Deadline: r.TimeUp}, func(c *mc.Ctx) bool {
+				var res c20run
+				var rerr error
+				out := sched.Run(c, sched.Options{Horizon: 10000, MaxTasks: 100}, func() {
+					entries, errs, err := uniprot.Read(path)
+					if err != nil {
+						rerr = err
+						return
+					}
+					for {
+						e, ok := sched.Recv2(entries)
+						if !ok {
+							res.closedE = true
+							break
+						}
+						res.got = append(res.got, e)
+					}
+					for {
+						_, ok := sched.Recv2(errs)
+						if !ok {
+							res.closedR = true
+							break
+						}
+						res.nerr++
+					}
+				})
+				if out.Cut {
+					return true
+				}
+				cas := "uniprot.Read of a gzip file, " + f.name + ", consumer S with Read's own channels"
+				if rerr != nil {
+					r.Fail(mc.Failure{Clause: "entries", Case: cas, Expected: "channels", Got: "error: " + rerr.Error()})
+					return false
+				}
+				return c20judge(r, cas, []string{"read"}, c.Choices(), out, res, es, complete, wf)
+			})
+			r.AddExplore(st, "read-file "+f.name)
+			r.AddNontrivial(int64(st.Execs))
+		}
+		r.Bound("read-file", "uniprot.Read on 5 gzip files (intact, cut inside the first / second entry, cut between entries, mismatched end tag), documented consumer, all interleavings")
+	}})
 	// the file wrapper
 	us = append(us, mc.Unit{Name: "read-file", Serial: true, Weight: 5, Run: func(r *mc.Recorder) {
 		dir, err := os.MkdirTemp("", "c20")
